@@ -107,7 +107,7 @@ ScanSeq(g) == IF loc[g].pc \in {"grt_lock", "grt_read", "grt_unlock"} THEN W.sca
 ScanObj(g) == ScanSeq(g)[loc[g].si]
 
 InitLoc(p) == [pc |-> IF p = <<>> THEN "done" ELSE "start", vi |-> 1, si |-> 0, co |-> "", lm |-> "", lm2 |-> "",
-               lb |-> NoBind, unb |-> "", err |-> FALSE]
+               lb |-> NoBind, unb |-> "", err |-> FALSE, late |-> FALSE]
 
 \* state after Init for a given world and programs (used by the instance modules)
 InitWith(w, p) ==
@@ -120,9 +120,11 @@ InitWith(w, p) ==
   /\ loc = [g \in G |-> InitLoc(p[g])]
   /\ out = [g \in G |-> <<>>]
 
-\* goroutine g finishes its current visit with outcome r
+\* goroutine g finishes its current visit with outcome r.  An interface-typed value whose object
+\* type was not found by implementor() but later by getReflectType() is resolved as the interface
+\* (__typename, type conditions) with the fields of the object type: outcome "late".
 Finish(g, r) ==
-  /\ out' = [out EXCEPT ![g] = Append(@, r)]
+  /\ out' = [out EXCEPT ![g] = Append(@, IF loc[g].late /\ r = "val" THEN "late" ELSE r)]
   /\ loc' = [loc EXCEPT ![g] = [InitLoc(<<1>>) EXCEPT !.vi = loc[g].vi + 1,
                                    !.pc = IF loc[g].vi + 1 > Len(prog[g]) THEN "done" ELSE "start"]]
 
@@ -324,7 +326,7 @@ GrtUnlock(g) ==
   /\ LET c == ScanObj(g) IN
        /\ objMu' = IF objMu[c] = g THEN [objMu EXCEPT ![c] = 0] ELSE objMu
        /\ IF Seen(c, loc[g].lm) = Cur(g).T
-          THEN loc' = [loc EXCEPT ![g].co = c, ![g].pc = "at_lock"] /\ UNCHANGED out   \* goto TOP
+          THEN loc' = [loc EXCEPT ![g].co = c, ![g].late = TRUE, ![g].pc = "at_lock"] /\ UNCHANGED out   \* goto TOP
           ELSE IF loc[g].si < Len(W.scan)
           THEN loc' = [loc EXCEPT ![g].si = @ + 1, ![g].pc = "grt_lock"] /\ UNCHANGED out
           ELSE Finish(g, "null")                                                        \* t = nil, fd = nil
